@@ -219,6 +219,54 @@ func entryPoints(run *lib.Run, res *net.Resolver) {
 	}
 }
 
+// resultCharset: the ASCII rule at its boundary. Every code point 0x01..0x7F in a result is
+// accepted and returned unchanged; code points on and just past each encoding boundary
+// (U+0080, U+0081, U+00A0, U+00FF, U+0100, U+07FF, U+0800, U+FFFF, U+10000, U+10FFFF) are an
+// error, at the start, in the middle and at the end of the result.
+func resultCharset(run *lib.Run, res *net.Resolver) {
+	const base = 2_500_000
+	pr, err := pac.NewProxyResolver(&pac.ProxyResolverConfig{Script: `function FindProxyForURL(url, host) {
+  var m = /cp=([0-9a-f]+)&pos=([0-9])/.exec(url); var c = String.fromCodePoint(parseInt(m[1], 16));
+  if (m[2] == "0") { return c + "PROXY a.test:80"; }
+  if (m[2] == "1") { return "PROXY a" + c + "b.test:80"; }
+  return "PROXY a.test:80" + c;
+}`}, res)
+	if err != nil {
+		run.Violation("valid-script-rejected", "result-charset script: "+err.Error(), -1, nil)
+		return
+	}
+	var cps []rune
+	for c := rune(1); c <= 0x7f; c++ {
+		cps = append(cps, c)
+	}
+	cps = append(cps, 0x80, 0x81, 0xa0, 0xff, 0x100, 0x7ff, 0x800, 0xffff, 0x10000, 0x10ffff)
+	i := 0
+	for _, c := range cps {
+		for pos := 0; pos < 3; pos++ {
+			idx := base + i
+			i++
+			if !run.Want(idx) {
+				continue
+			}
+			cls := "ascii"
+			if c >= 0x80 {
+				cls = fmt.Sprintf("U+%04X", c)
+			}
+			run.Case(idx, fmt.Sprintf("result-charset|%s|pos%d", cls, pos), nil)
+			run.Count("result_charset_cases", 1)
+			u, _ := url.Parse(fmt.Sprintf("http://probe.test/?cp=%x&pos=%d", c, pos))
+			got, ferr := safeFind(pr, u, "")
+			want := [3]string{string(c) + "PROXY a.test:80", "PROXY a" + string(c) + "b.test:80", "PROXY a.test:80" + string(c)}[pos]
+			switch {
+			case c < 0x80 && (ferr != nil || got != want):
+				run.Violation("ascii-result-altered", fmt.Sprintf("result %q came back as (%q, %v)", want, got, ferr), idx, nil)
+			case c >= 0x80 && ferr == nil:
+				run.Violation("non-string-result-accepted:non-ascii", fmt.Sprintf("result containing U+%04X at position class %d returned %q without error", c, pos, got), idx, nil)
+			}
+		}
+	}
+}
+
 type refProxy struct{ mode, host, port string }
 
 var kwScheme = map[string]string{"PROXY": "http", "HTTP": "http", "HTTPS": "https", "SOCKS": "socks", "SOCKS4": "socks4", "SOCKS5": "socks5"}
